@@ -2,6 +2,7 @@
 from __future__ import annotations
 
 import ast
+import re
 
 from ..absint import Const, Obj, Tup, explore, vkey
 from ..core import Unrecognised, Report
@@ -26,6 +27,7 @@ def run(repo, report, tier):
     report.guard("C20.R6", "ErrorRanges call sites", r6_error_ranges, repo, report)
     report.guard("C20.R2", "histogram rows", r2_histogram_rows, repo, report)
     report.guard("C20.R6", "per-adapter section of the text report", r6_per_adapter_values, repo, report)
+    report.guard("C20.R6", "ErrorRanges boundaries", r6_range_boundaries, repo, report)
     report.notes.append("C20.R4 (merge of statistics is complete and additive) is C06.R4; C20.R5 (removed_sequence_length) is C03.R4. Not decided: the 'allowed errors' arithmetic of ErrorRanges (int(e/rate)-1 is not max{L: floor(L*rate) < e} when 1/rate is not an integer: -e 0.15, length 20 reports [5, 12, 19, 20], true [6, 13, 19, 20]) - a numeric defect seen while reading, outside the reach of a shape rule.")
 
 
@@ -494,3 +496,49 @@ def r1_fresh_match_list(repo, report):
     report.ob("C20.R1", "AdapterCutter.match_and_trim returns a list of its own", not bad, facts={"returns": len(rets), "problems": bad[:2]}, loc=repo.loc(fn),
               expected="the returned match list is created inside the call ([] / a comprehension / list(...))",
               why=(f"{bad[0]}: a list that outlives the call is shared between the two orientation trials of --revcomp, so the matches tallied for the kept orientation are those of the other trial" if bad else ""))
+
+
+def r6_range_boundaries(repo, report):
+    """'i errors are allowed up to length lengths[i]' must agree with int(rate * L) for EVERY L.  The number of allowed
+    errors is a step function of the float product rate * L; its steps cannot be located by a quotient i / rate (floor is
+    one too small whenever the quotient is not an integer - rate 0.3 -, ceil is one too large when rounding makes an
+    integer quotient slightly bigger).  Decided structurally: the boundaries are found by evaluating the product for the
+    candidate lengths; a quotient form is reported; any other shape is not judged."""
+    c, fn = repo.method("ErrorRanges", "_compute_lengths")
+    if fn is None:
+        raise Unrecognised("ErrorRanges._compute_lengths not found")
+    rate, length = "self.error_rate", "self.length"
+
+    def is_product_of(e, var):
+        return isinstance(e, ast.Call) and chain(e.func) == "int" and len(e.args) == 1 and isinstance(e.args[0], ast.BinOp) and isinstance(e.args[0].op, ast.Mult) \
+            and sorted([src(e.args[0].left), src(e.args[0].right)]) == sorted([rate, var])
+
+    quotients = [src(x) for x in ast.walk(fn) if isinstance(x, ast.BinOp) and isinstance(x.op, (ast.Div, ast.FloorDiv)) and src(x.right) == rate]
+    scans = []
+    for lp in [x for x in ast.walk(fn) if isinstance(x, ast.For) and isinstance(x.target, ast.Name)]:
+        it = lp.iter
+        full = isinstance(it, ast.Call) and chain(it.func) == "range" and [src(a) for a in it.args] == ["1", f"{length} + 1"]
+        tests = [t.test for t in ast.walk(lp) if isinstance(t, (ast.While, ast.If))]
+        cmp_ok = [t for t in tests if isinstance(t, ast.Compare) and len(t.ops) == 1 and isinstance(t.ops[0], (ast.Gt, ast.Lt)) and (
+            (is_product_of(t.left, lp.target.id) and re.fullmatch(r"len\((\w+)\)", src(t.comparators[0]))) or (is_product_of(t.comparators[0], lp.target.id) and re.fullmatch(r"len\((\w+)\)", src(t.left))))]
+        if full and cmp_ok:
+            t = cmp_ok[0]
+            lst = re.fullmatch(r"len\((\w+)\)", src(t.comparators[0]) if is_product_of(t.left, lp.target.id) else src(t.left)).group(1)
+            gt_ok = (is_product_of(t.left, lp.target.id) and isinstance(t.ops[0], ast.Gt)) or (is_product_of(t.comparators[0], lp.target.id) and isinstance(t.ops[0], ast.Lt))
+            holder = [w for w in ast.walk(lp) if isinstance(w, ast.While) and w.test is t]
+            app = [src(c_) for w in holder for c_ in ast.walk(w) if isinstance(c_, ast.Call) and chain(c_.func) == f"{lst}.append"]
+            scans.append({"loop": src(it), "test": src(t), "append": app, "ok": gt_ok and app == [f"{lst}.append({lp.target.id} - 1)"]})
+    if quotients and not scans:
+        report.ob("C20.R6", "ErrorRanges: range boundaries", False, facts={"boundary_from": quotients[:2]}, loc=repo.loc(fn),
+                  expected="boundaries located with int(error_rate * L), the aligner's own expression",
+                  why=f"the last length with fewer than i errors is computed from the quotient {quotients[0]}: for rate 0.3 the table says '3-5 bp: 1' although int(0.3 * 3) = 0")
+    elif scans:
+        ok = len(scans) == 1 and scans[0]["ok"] and not quotients
+        report.ob("C20.R6", "ErrorRanges: range boundaries", ok, facts={"scan": scans[:1], "quotients": quotients[:1]}, loc=repo.loc(fn),
+                  expected="for L in range(1, length + 1): while int(error_rate * L) > len(lengths): lengths.append(L - 1)",
+                  why="" if ok else "the scan over the lengths does not record L - 1 as the last length of the previous error count (or a quotient is mixed in)")
+    else:
+        report.unrecognised("C20.R6", "ErrorRanges: range boundaries", "neither a scan over the lengths with int(error_rate * L) nor a quotient form", repo.loc(fn))
+    # the adapter length closes the table
+    tail = [x for x in ast.walk(fn) if isinstance(x, ast.Call) and isinstance(x.func, ast.Attribute) and x.func.attr == "append" and [src(a) for a in x.args] == [length]]
+    report.ob("C20.R6", "ErrorRanges: the adapter length closes the table", len(tail) == 1, facts={"appends_length": len(tail)}, expected="lengths.append(self.length) unless the last boundary is the length itself", loc=repo.loc(fn))
